@@ -70,12 +70,12 @@ func (m *C08Monitor) AfterPass(r *Runner, pv *PassView) error {
 			circ := ""
 			// the revision doing the teardown: the pass's ObjectSet, or the ObjectSet controlling the pass's ObjectSetPhase
 			setKey := pv.OwnerKey
-			if pv.OwnerKey.Kind == "ObjectSetPhase" && pv.Owner != nil {
+			if (pv.OwnerKey.Kind == "ObjectSetPhase" || pv.OwnerKey.Kind == "ClusterObjectSetPhase") && pv.Owner != nil {
 				if cr, ok := engine.ControllerRef(pv.Owner); ok {
-					setKey = kubesim.Key{Group: engine.PKOGroup, Kind: "ObjectSet", Namespace: pv.OwnerKey.Namespace, Name: cr.Name}
+					setKey = kubesim.Key{Group: engine.PKOGroup, Kind: depSetKind(), Namespace: pv.OwnerKey.Namespace, Name: cr.Name}
 				}
 			}
-			if own := r.StateAt(setKey, base+ci); own != nil && setKey.Kind == "ObjectSet" {
+			if own := r.StateAt(setKey, base+ci); own != nil && setKey.Kind == depSetKind() {
 				listed := false
 				for _, e := range controllerOfList(asMap(own["status"])) {
 					if e.Kind == c.Key.Kind && e.Group == c.Key.Group && e.Name == c.Key.Name {
@@ -91,7 +91,7 @@ func (m *C08Monitor) AfterPass(r *Runner, pv *PassView) error {
 			if circ == "" {
 				// was the newest revision paused (by the user or through a paused deployment) when the outgoing revision was archived?
 				// A paused revision reports Available from what it observes but adopts nothing.
-				newestKey := kubesim.Key{Group: engine.PKOGroup, Kind: "ObjectSet", Namespace: kubesim.MetaString(newest, "namespace"), Name: kubesim.MetaString(newest, "name")}
+				newestKey := kubesim.Key{Group: engine.PKOGroup, Kind: depSetKind(), Namespace: kubesim.MetaString(newest, "namespace"), Name: kubesim.MetaString(newest, "name")}
 				for j := base + ci - 1; j >= 0; j-- {
 					ac := r.W.Store.Trace[j]
 					if ac.Actor == "pko" && ac.Verb == "update" && ac.Key == setKey && ac.Pre != nil && ac.Post != nil &&
@@ -108,7 +108,7 @@ func (m *C08Monitor) AfterPass(r *Runner, pv *PassView) error {
 				pv.P.ID, pv.P.Controller, pv.P.Req.Name, c.Key, kubesim.MetaString(newest, "name"), setRevision(newest))
 		}
 	}
-	if pv.P.Controller != engine.CtrlObjectDeployment || pv.Owner == nil {
+	if !isDepController(pv.P.Controller) || pv.Owner == nil {
 		return nil
 	}
 	start := depSetsAt(r, pv.P.FirstSeq)
@@ -122,7 +122,7 @@ func (m *C08Monitor) AfterPass(r *Runner, pv *PassView) error {
 	}
 	var deleted []string
 	for _, c := range pv.Calls {
-		if c.Actor != "pko" || c.Key.Kind != "ObjectSet" || c.DryRun || c.Err != "" {
+		if c.Actor != "pko" || c.Key.Kind != depSetKind() || c.DryRun || c.Err != "" {
 			continue
 		}
 		x := byName[c.Key.Name]
